@@ -249,6 +249,38 @@ pub fn exec_agree(c: &AgreeCase, st: &mut Stats) -> Vec<Viol> {
             }
         }
     };
+    // a read answered with ErrorKind::Interrupted is to be retried (std's Read contract): one such answer at
+    // any read of a 1-byte-per-read delivery - also between the bytes of one character - changes nothing
+    if !bytes.is_empty() {
+        let n = bytes.len();
+        let idxs: Vec<usize> = if n <= 48 { (0..n + 2).collect() } else { (0..16).map(|i| (i * 7919 + n) % (n + 1)).collect() };
+        for k in idxs {
+            let script = ReaderScript {
+                chunking: Some(Chunking::Fixed(1)),
+                faults: vec![ReadFault {
+                    pos: FaultPos::AtRead(k),
+                    kind: ErrKind::Interrupted,
+                    after: After::ThenResume,
+                }],
+                ..Default::default()
+            };
+            let r = crate::with_target!(c.target, run(Entry::FromReader, bytes, &c.opts, &script));
+            st.evals += 1;
+            st.bump("fired.interrupted_then_resume");
+            if r.outcome.agree_key() != rkey {
+                out.push(mk(
+                    "interrupted-read-changes-result",
+                    format!(
+                        "1-byte reads with read {k} answered by Interrupted (then resumed): from_reader gives {} but from_str gives {}",
+                        r.outcome.short(),
+                        reference.outcome.short()
+                    ),
+                    Some(Chunking::Fixed(1)),
+                ));
+                break;
+            }
+        }
+    }
     // documents with anchors, aliases or merge keys under tight limits on exactly those counters: what is
     // charged (alias events, replayed nodes, merge keys) must not depend on the entry point
     if let Some(text) = c.doc.as_str()
